@@ -212,13 +212,16 @@ CLAIMED = {
          "through the real DomainGuard::new + matchit_pattern and a real matchit router, with the three normalisation steps of the "
          "generated router, ~1.5k (quick) / 20k (thorough) pseudo-random guards built from the documented grammar (1-4 labels, literal "
          "labels, `{param}` with an optional literal suffix, a leading `{*param}`, optional trailing dot) x 24 near-miss hosts each are "
-         "accepted and match exactly the hosts the documented rules give; 17 forbidden and 10 permitted guard shapes from the "
-         "documentation and the DNS rules it cites get the documented verdict (63/64-character label boundary included)."),
+         "accepted and match exactly the hosts the documented rules give; EVERY string of length <=5 (quick, 19 607) / <=7 (thorough, "
+         "960 799) over the 7 symbols a 1 - . { } * gets, from the real DomainGuard::new, the verdict of a 20-line model of the documented "
+         "rules; 17 forbidden and 10 permitted guard shapes from the documentation, 13 boundary pairs for the 63-character label and "
+         "253-character total limits (plain, templated, with trailing dot) and 14 alphabet cases (digit-initial labels, upper case, "
+         "non-ASCII letters and digits) get the documented verdict."),
    note=("NOT decided: `validate` and `matchit_pattern` themselves are outside the verifier (str::split, chars().rev().peekable(), "
          "take_while, IndexSet<char>, syn::parse_str — measured: Verus has no str/iterator reasoning, Kani does not converge at 2-5 "
          "characters); `validate` is an uninterpreted oracle in the contract, trim_end_matches('.') is a retyped stand-in. The bounded "
-         "stand-in samples, it does not enumerate: a slip that needs a shape outside its grammar (253-character totals, non-ASCII, "
-         "parameter-name syntax beyond the listed cases) is not seen. The host normalisation is REPLICATED in the stand-in from "
+         "stand-in enumerates only short strings over 7 symbols and samples beyond: a slip that needs a longer string over a richer "
+         "alphabet than its pools (parameter names that are Rust keywords, limits other than the listed boundaries) is not seen. The host normalisation is REPLICATED in the stand-in from "
          "codegen/router.rs (it lives inside a quote! template): a change there is not seen. The conflict half of the statement "
          "(detect_domain_conflicts: two guards that can match one host are rejected) is not decided — it is matchit's insert error, a "
          "dependency. A host with several trailing dots is outside 'every host name' and not judged."),
